@@ -6,10 +6,12 @@ Stages (see run()):
                       model variant (State/Crash.v `variant`) and which finding classes may still count as known
   proofs              coq/props/C10.v (crash model State/Crash.v)
   W:run_ops           the real mutation sequence of configure / regenerate (recorded by harness/inject/sitecustomize.py in
-                      the bfg9000 process) against the model's run_ops on the same abstract project
+                      the bfg9000 process; os.replace / os.rename are mutation points) against the model's run_ops (of the
+                      detected variant) on the same abstract project
   oracle:crash        fault injection at EVERY mutation point of the recorded run (raise / kill, before / after), then one
                       or two real `make` runs; oracle: exit status != 0 or files byte-equal to a fresh configure
-  W:outcome           the same experiments against the model's prediction (crash n ; attempt ; attempt)
+  W:outcome           the same experiments against the model's prediction (crash n ; attempt ; attempt), including the state
+                      of .bfg_find_deps and .bfg_find_deps.tmp right after the fault
   oracle:script_raise a build script (or a rule emission) that raises leaves the previous build file byte-identical
 """
 import concurrent.futures
@@ -27,7 +29,8 @@ LEVEL = 'proof'
 RULE = ('projects are drawn from the feature grid find_files yes/no x 0..2 pkg_config calls (2 immediate files each) x '
         'install/test rules x compdb on/off x edit kind (new file in a watched directory / build.bfg edited / both) x '
         'how the regeneration is started (make-triggered regenerate --lazy, bfg9000 regenerate, configure-into over the '
-        'existing build directory); for each project EVERY mutation point n of the recorded run is faulted (exhaustive), in '
+        'existing build directory); for each project EVERY mutation point n of the recorded run (incl. the rename of the depfile) is '
+        'faulted (exhaustive), in '
         'the variants kill/raise x before/after; a case = (project, n, variant, follow-up index); non-trivial when the run '
         'was really cut (fault fired) and distinct by (project features, abstract crash state, follow-up index)')
 TRUSTED = ('GNU Make 4.3 as the consumer of the Makefile (real tool, run on every crash state)',
@@ -258,6 +261,16 @@ class Bench:
         return rc, out, procs, ops, pr, state
 
 
+def aux_state(build):
+    """.bfg_find_deps and its temporary file after the fault: absent | empty | full (their bytes are the same in both
+    generations when only a file was added to a watched directory, so old / new is not distinguished)."""
+    out = {}
+    for name, key in (('.bfg_find_deps', 'deps'), ('.bfg_find_deps.tmp', 'depstmp')):
+        p = os.path.join(build, name)
+        out[key] = 'absent' if not os.path.lexists(p) else ('empty' if os.path.getsize(p) == 0 else 'full')
+    return out
+
+
 def abstract_file(spec, path):
     """Trace path -> model file id."""
     if path == '.bfg_environ':
@@ -307,6 +320,7 @@ def run_points(spec, points, followups=2):
                 r['fired'] = any('fault' in o for p in procs for o in p['ops'])
                 r['fault_ops'] = abstract_ops(spec, ops)
                 r['after_fault'] = b.classify()
+                r['after_fault_aux'] = aux_state(b.build)
                 bf = b.watched()[0]
                 r['build_identical'] = b.contents(b.build)[bf] == b.v1[bf]
                 r['attempts'] = []
@@ -407,6 +421,7 @@ OPN = {0: 'open', 1: 'close', 2: 'remove', 3: 'utime', 4: 'makedirs', 5: 'rename
 FILEN = {0: ('env',), 2: ('deps',), 3: ('cache',), 4: ('build',), 5: ('stamp',), 6: ('compdb',), 7: ('builddir',),
          8: ('immdir',), 9: ('depstmp',)}
 STATE = {0: 'absent', 1: 'empty', 2: 'old', 3: 'new'}
+AUX = {0: 'absent', 1: 'empty', 2: 'full', 3: 'full'}
 EDITS = {'dir': [False, True, False], 'script': [True, False, False], 'both': [True, True, False],
          'touch': [False, False, True]}
 
@@ -457,8 +472,9 @@ def model_outcomes(spec, same, names, cs, k=2):
     out = []
     for r in raw:
         st0 = canon_state(spec, same, names, (r[0][0], r[0][1], r[0][2]))
+        aux = {'deps': AUX[r[0][3]], 'depstmp': AUX[r[0][4]]}
         atts = [(bool(a[0]), bool(a[1]), canon_state(spec, same, names, (a[2], a[3], a[4]))) for a in r[1]]
-        out.append((st0, atts, bool(r[2])))
+        out.append((st0, atts, bool(r[2]), aux))
     return calls, raw, out
 
 
@@ -559,8 +575,11 @@ def stage_crash(rep, specs, traces, kinds, followups=2):
         cs = [max(0, crash_state(r['n'], r['kind']) - shift) for r in rs]
         calls, raw, outs = model_outcomes(spec, tr['same'], tr['names'], cs, k=followups)
         calls_all += calls; raw_all += raw
-        for r, (st0, atts, safe) in zip(rs, outs):
+        for r, (st0, atts, safe, aux) in zip(rs, outs):
             real0 = r['after_fault']
+            # the depfile and its temporary file right after the fault (ties Open/WriteClose/Rename on them)
+            if r['after_fault_aux'] != aux:
+                dis.append(('crash.outcome/depfile', spec, (r['n'], r['kind']), r['after_fault_aux'], aux))
             real = [(a['rc'] == 0, bool(a['regen_ops']), a['state']) for a in r['attempts']]
             if real0 != st0 or real != atts:
                 dis.append(('crash.outcome', spec, (r['n'], r['kind']), (real0, real), (st0, atts)))
